@@ -235,6 +235,7 @@ type VC struct {
 	entryCtx  *SpecCtx
 	lemmaPkg  *ssa.Package
 	noSafety bool
+	safetyKinds map[string]bool
 	qname string
 }
 
